@@ -418,6 +418,90 @@ fn alias_checks(out: &mut JobOut) {
     }
 }
 
+/// Very large results (tens of MiB): entry points must still agree element by element. The batch
+/// holds a few elements outside the range; with extrapolation every entry point answers them,
+/// without it every entry point rejects the batch.
+fn huge_batches(m: usize, two_d_query: bool, out: &mut JobOut) {
+    use ndarray::{Array1, Array2};
+    use ndarray_interp::interp1d::cubic_spline::CubicSpline;
+    use ndarray_interp::interp1d::{Interp1DBuilder, Linear};
+    use ndarray_interp::interp2d::{Bilinear, Interp2DBuilder};
+    let x = Array1::from(vec![-1.0, 0.5, 1.0, 3.0, 3.5]);
+    let y = Array1::from(vec![2.0, -1.0, 0.25, 4.0, 1.5]);
+    let qv: Vec<f64> = (0..m).map(|i| match i { 0 => -2.5, 7 => 4.45, _ if i == m / 2 => 9.0, _ if i == m - 1 => -1.25, _ => -1.0 + 4.5 * ((i * 2654435761) % 1000) as f64 / 1000.0 }).collect();
+    let key = format!("huge:m{m}:{}", if two_d_query { "2-d query" } else { "1-d query" });
+    macro_rules! one {
+        ($name:expr, $ip:expr, $extrapolating:expr) => {{
+            let ip = $ip;
+            out.states += 1;
+            let singles: Vec<Result<u64, ()>> = qv.iter().map(|&q| ip.interp_scalar(q).map(|v| v.to_bits()).map_err(|_| ())).collect();
+            let all_ok = singles.iter().all(|r| r.is_ok());
+            assert_eq!(all_ok, $extrapolating);
+            let (batch, into): (Result<Vec<u64>, String>, Result<Vec<u64>, String>) = if two_d_query {
+                let q2 = Array2::from_shape_vec((m / 2, 2), qv[..m / 2 * 2].to_vec()).unwrap();
+                let b = catch(|| ip.interp_array(&q2)).and_then(|r| r.map(|a| a.iter().map(|v| v.to_bits()).collect()).map_err(|e| e.to_string()));
+                let mut buf = Array2::from_elem((m / 2, 2), f64::NAN);
+                let i = catch(|| ip.interp_array_into(&q2, buf.view_mut())).and_then(|r| r.map(|_| buf.iter().map(|v| v.to_bits()).collect()).map_err(|e| e.to_string()));
+                (b, i)
+            } else {
+                let q1 = Array1::from(qv.clone());
+                let b = catch(|| ip.interp_array(&q1)).and_then(|r| r.map(|a| a.iter().map(|v| v.to_bits()).collect()).map_err(|e| e.to_string()));
+                let mut buf = Array1::from_elem(m, f64::NAN);
+                let i = catch(|| ip.interp_array_into(&q1, buf.view_mut())).and_then(|r| r.map(|_| buf.iter().map(|v| v.to_bits()).collect()).map_err(|e| e.to_string()));
+                (b, i)
+            };
+            let used = if two_d_query { m / 2 * 2 } else { m };
+            for (call, res) in [("interp_array", &batch), ("interp_array_into", &into)] {
+                out.evals += 1;
+                out.nontrivial += 1;
+                out.transitions += used as u64;
+                let verdict_ok = res.is_ok();
+                let want_ok = singles[..used].iter().all(|r| r.is_ok());
+                let same = match res {
+                    Ok(v) => want_ok && v.len() == used && v.iter().zip(&singles[..used]).all(|(a, b)| Ok(*a) == *b),
+                    Err(_) => !want_ok,
+                };
+                out.outcome(format!("huge:{call}:{}", if verdict_ok { "Ok" } else { "Err" }));
+                if !same {
+                    out.violate(
+                        format!("{key}:{}:{call}", $name).replace(' ', ""),
+                        format!("{} on a batch of {used} queries: {call} {} although element-wise interp_scalar {}", $name, match res { Ok(_) => "returned Ok (or other values)".to_string(), Err(e) => format!("failed ({e})") }, if want_ok { "answers every element" } else { "rejects an element" }),
+                        Json::obj(vec![("queries", Json::Int(used as i128)), ("strategy", Json::str($name))]),
+                    );
+                }
+            }
+        }};
+    }
+    one!("Linear+extrapolate", Interp1DBuilder::new(y.clone()).x(x.clone()).strategy(Linear::new().extrapolate(true)).build().unwrap(), true);
+    one!("Linear", Interp1DBuilder::new(y.clone()).x(x.clone()).strategy(Linear::new()).build().unwrap(), false);
+    one!("CubicSpline+extrapolate", Interp1DBuilder::new(y.clone()).x(x.clone()).strategy(CubicSpline::new().extrapolate(true)).build().unwrap(), true);
+    // 2-D interpolator, the same queries for both coordinates
+    {
+        let z = Array2::from_shape_fn((5, 5), |(i, j)| (i * 5 + j) as f64 * 0.375 - 2.0);
+        for extrapolate in [true, false] {
+            let ip = Interp2DBuilder::new(z.clone()).x(x.clone()).y(x.clone()).strategy(Bilinear::new().extrapolate(extrapolate)).build().unwrap();
+            out.states += 1;
+            let singles: Vec<Result<u64, ()>> = qv.iter().map(|&q| ip.interp_scalar(q, q).map(|v| v.to_bits()).map_err(|_| ())).collect();
+            let q1 = Array1::from(qv.clone());
+            let b: Result<Vec<u64>, String> = catch(|| ip.interp_array(&q1, &q1)).and_then(|r| r.map(|a| a.iter().map(|v| v.to_bits()).collect()).map_err(|e| e.to_string()));
+            out.evals += 1;
+            out.nontrivial += 1;
+            out.transitions += m as u64;
+            let want_ok = singles.iter().all(|r| r.is_ok());
+            let same = match &b {
+                Ok(v) => want_ok && v.iter().zip(&singles).all(|(a, b)| Ok(*a) == *b),
+                Err(_) => !want_ok,
+            };
+            if !same {
+                out.violate(format!("{key}:Bilinear:{extrapolate}"), format!("Bilinear (extrapolate = {extrapolate}) on a batch of {m} queries: interp_array and element-wise interp_scalar disagree"), Json::Null);
+            }
+        }
+    }
+    if out.sample.is_none() {
+        out.sample = Some(Json::str(&key));
+    }
+}
+
 fn body(ctx: &Ctx) -> (Summary, Meta) {
     let quick = false; // the full set costs 0.1 s
     let _ = ctx.quick();
@@ -485,8 +569,19 @@ fn body(ctx: &Ctx) -> (Summary, Meta) {
         out
     });
     sum.merge(sc);
+    // results of 16 MiB + / 32 MiB + (quick) and 128 MiB + (thorough)
+    let mut huge: Vec<(usize, bool)> = vec![((1 << 21) + 9, false), ((1 << 21) + 10, true), ((1 << 22) + 9, false)];
+    if !ctx.quick() {
+        huge.push(((1 << 24) + 9, false));
+        huge.push(((1 << 24) + 10, true));
+    }
+    sum.merge(run_jobs(ctx, "huge-batches", &huge, |h| format!("huge:m{}:{}", h.0, h.1), |h| {
+        let mut out = JobOut::default();
+        huge_batches(h.0, h.1, &mut out);
+        out
+    }));
     let meta = Meta {
-        rule: "every instantiation {Interp1D x data Ix1..Ix6, IxDyn(rank 1,3,7,14,20); Interp2D x data Ix2..Ix6, IxDyn(rank 2,4,8,15)} x query dimension types Ix0..Ix4, IxDyn(rank 0..5; incl. dynamic rank 1, which takes the general path) x query shapes incl. empty ones x data shapes incl. a zero-length trailing axis x strategies {Linear, Linear+extrapolate, CubicSpline / Bilinear, Bilinear+extrapolate} x {all in range, one out-of-range element at the last / first / middle position}. Oracle: result shape = query shape ++ trailing data dims (also when the combined rank exceeds 6); interp_array(q)[i] == interp(q[i]) bit for bit; the batch is Ok iff every element is; interp_array_into into a poisoned window equals interp_array and leaves the surroundings intact; interp_scalar == interp. Queries hit knots exactly, repeat values, contain 0.0 next to -0.0 (the samples at the first knot are -0.0) and, in a separate group, are views into the same buffer as the axis. Every case is non-trivial.".into(),
+        rule: "every instantiation {Interp1D x data Ix1..Ix6, IxDyn(rank 1,3,7,14,20); Interp2D x data Ix2..Ix6, IxDyn(rank 2,4,8,15)} x query dimension types Ix0..Ix4, IxDyn(rank 0..5; incl. dynamic rank 1, which takes the general path) x query shapes incl. empty ones x data shapes incl. a zero-length trailing axis x strategies {Linear, Linear+extrapolate, CubicSpline / Bilinear, Bilinear+extrapolate} x {all in range, one out-of-range element at the last / first / middle position}. Oracle: result shape = query shape ++ trailing data dims (also when the combined rank exceeds 6); interp_array(q)[i] == interp(q[i]) bit for bit; the batch is Ok iff every element is; interp_array_into into a poisoned window equals interp_array and leaves the surroundings intact; interp_scalar == interp. Queries hit knots exactly, repeat values, contain 0.0 next to -0.0 (the samples at the first knot are -0.0) and, in a separate group, are views into the same buffer as the axis. Phase huge-batches: batches of 2^21+9, 2^22+9 (thorough: 2^24+9) queries (results of 16 - 128 MiB) with four out-of-range elements, 1-d and 2-d query arrays, Linear / CubicSpline / Bilinear with and without extrapolation: interp_array and interp_array_into agree with element-wise interp_scalar in verdict and bits. Every case is non-trivial.".into(),
         bounds: format!("{ncases} cases over 78 static/dynamic instantiations x 3 (2) strategies; tier {}", ctx.tier.name()),
         assumptions: vec![],
         extra: vec![],
